@@ -326,7 +326,13 @@ def _history_cases(draw, tier):
     nops = draw(st.integers(2, 7))
     for _ in range(nops):
         kind = draw(st.sampled_from(["noise", "noise", "chan", "use", "use",
-                                     "rejected"]))
+                                     "rejected", "query"]))
+        if kind == "query":
+            # a pure query (post-processing SINRs for some noise level)
+            # between the set-up and the next use: it configures nothing
+            ops.append(dict(op="query", value=draw(_noise()),
+                            db=draw(st.booleans())))
+            continue
         if kind == "rejected":
             # a call the scheme documents as an error (ValueError): wrong
             # antenna count for Alamouti / MRT, negative noise variance
@@ -774,6 +780,25 @@ def _check_history(case, ctx):
                     noise_set_then_cleared = True
                 obj.set_noise_var(noise)
                 ctx.label("hist_op:noise")
+            elif op["op"] == "query":
+                nvq = _noise_var(op["value"], s)
+                fn = getattr(obj, "calc_SINRs" if op.get("db")
+                             else "calc_linear_SINRs", None)
+                if fn is not None:
+                    q1 = np.asarray(fn(nvq), dtype=float)
+                    fq = cls(H.copy())
+                    if scheme in _NOISE_SCHEMES:
+                        fq.set_noise_var(noise)
+                    q2 = np.asarray(getattr(fq, fn.__name__)(nvq),
+                                    dtype=float)
+                    if q1.shape != q2.shape or not np.allclose(
+                            q1, q2, rtol=1e-9, atol=0.0, equal_nan=True):
+                        raise Violation("stale_state", "the SINR query of "
+                                        "the object used so far differs from "
+                                        "that of a freshly configured one: "
+                                        "%r vs %r" % (q1, q2),
+                                        dict(scheme=scheme, op="query"))
+                    ctx.label("hist_op:sinr_query")
             elif op["op"] == "rejected":
                 # the call is refused; the object keeps working with the
                 # channel and noise variance it had (judged by the next use)
